@@ -134,13 +134,14 @@ def run(chk, repo, tier):
     for p in returns(paths):
         lps = [lp for lp in p.state.loops if lp['func'] == f.key]
         if lps:
-            pre = lps[0]['pre'].get('img')
-            pa = pre.single_atom() if isinstance(pre, Poly) else None
-            okz = pa is not None and is_app(pa, 'zeros') and pa[2][0] == S('shape')
-            ends = [e.get('img') for e in lps[0]['ends']]
             cr = p.calls('detector._cosmic_ray')
-            oks = len(cr) == 1 and cr[0].bound.get('shape') == S('shape') and \
-                all(e == lps[0]['phi']['img'] + cr[0].result for e in ends)
+            for acc, ph in lps[0]['phi'].items():      # the accumulated frame, whatever it is called
+                ends = [e.get(acc) for e in lps[0]['ends']]
+                if len(cr) == 1 and ends and all(isinstance(e, Poly) and e == ph + cr[0].result for e in ends):
+                    pre = lps[0]['pre'].get(acc)
+                    pa = pre.single_atom() if isinstance(pre, Poly) else None
+                    okz = pa is not None and is_app(pa, 'zeros') and pa[2][0] == S('shape')
+                    oks = cr[0].bound.get('shape') == S('shape')
     chk.ob('C18-f', 'R-shape', f.key, 'accumulates ray frames of the requested shape into zeros(shape)', okz and oks, '', f.loc())
     # the ray is confined to the frame: rows 0..shape[0]-1, columns 0..shape[1]-1, one layer deep
     fcr, cpaths, _ = analyse(repo, 'detector._cosmic_ray')
